@@ -1,0 +1,6 @@
+//go:build !verif
+
+package resolve
+
+// verifYield is a no-op without the "verif" build tag (see verif_hooks_on.go).
+func verifYield(string) {}
